@@ -128,7 +128,36 @@ def run_frame(line):
             return f"err with-show_progress !{type(e).__name__}"
         if second != first:
             return "err show_progress-changes-output"
+        # the definition-level generator used as a framer (`ccsds_headers_only=True`) yields the same raw packets
+        try:
+            third = _run_frame_headers_only(skip, kind, r, chunks)
+        except Exception as e:  # noqa: BLE001
+            return f"err headers-only-generator !{type(e).__name__}"
+        if third != first and first != "nonterm":
+            return "err headers-only-generator-differs"
     return first
+
+
+_HDR_DEF = []
+
+
+def _run_frame_headers_only(skip, kind, r, chunks):
+    if not _HDR_DEF:
+        from harness import xbuild
+        from harness.props import c12
+        _HDR_DEF.append(xbuild.definition(c12.header_only_def()))
+    total = sum(len(c) for c in chunks)
+    src, kw = make_source(kind, r, chunks)
+    out = []
+    try:
+        for item in _HDR_DEF[0].packet_generator(src, ccsds_headers_only=True, skip_header_bytes=skip, **kw):
+            out.append(bytes(item))
+            if len(out) > total // 7 + 3:
+                return "nonterm"
+    finally:
+        if kind == "socket":
+            src.close()
+    return "pkts" + "".join(" " + hx(p) for p in out)
 
 
 def ref_split(data, skip):
